@@ -1,5 +1,5 @@
 """Per-property claims (source of MANIFEST.json, regenerate with bin/mkmanifest.py)."""
-SOURCE_COMMITS = ["7e146d4", "9424340", "a1f5d2c"]   # fix: commits in /repo (no hook commits are needed)
+SOURCE_COMMITS = ["7e146d4", "9424340", "a1f5d2c", "8e587e5", "5690cd1", "d545c2f", "62723dc", "8131b7f"]   # fix: commits in /repo (no hook commits are needed)
 
 _NOTE = ("Trusted: PyVC (interpreter, VC generation), z3, the numpy/builtins stubs (assumed contracts of dependencies, listed in the "
          "evidence), floats treated as reals except in comparisons, unbounded ints, partial correctness. ")
@@ -16,4 +16,24 @@ CHECKS["C01"] = {"category": "other", "technique": "contract-based VC generation
            "markers for gapped bins). The real source of h1 and everything it calls is executed symbolically for every path with symbolic values, weights "
            "and edges; array extents are fixed per configuration (data length <= 3, bins <= 3), so these obligations are a bounded stand-in, never counted as proved.",
    "note": _NOTE + "Bounded: extents fixed (n<=3 values, m<=3 bins). argsort/searchsorted are assumed contracts (permutation + sortedness; counting)."}
+_B = "contract-based VC generation from the real AST, z3; array extents bounded (labelled bounded, never counted as proved)"
+_BT = ("Ensures/raises clauses taken from the property statement are attached to the real functions; the real source (and everything it calls, "
+       "interpreted in place) is executed symbolically on every path with symbolic contents, edges, weights and scalars; every clause is discharged by z3 "
+       "and counterexamples are replayed on the real code. Array extents / bin counts are fixed small numbers per configuration, so these obligations are a "
+       "bounded stand-in and are reported under coverage.bounded, never as proved. ")
+for _p, _extra in {
+    "C02": "h facade over 2-3 axes, <=2 rows.", "C03": "find_bin/fill/fill_n of Histogram1D and HistogramND.",
+    "C05": "__iadd__/__add__ same-bins and refusal arms; Statistics.__add__ is proved unbounded.",
+    "C06": "scaling/division arms and refusals; Statistics.__mul__ is proved unbounded.",
+    "C09": "projection over every enumerated axis tuple of 2D-4D shapes, T, accumulate.", "C10": "merge_bins(amount) 1D/2D.",
+    "C11": "1D int/slice/mask/index-array and ND tuple indexing.", "C12": "independence (no shared writable storage) of copy, +, *, /, merge, slices, projections, T.",
+    "C13": "dtype consistency/promotion clauses of fill, fill_n, +, *, /.", "C18": "state-unchanged clauses on every refusing path of the mutators.",
+}.items():
+    CHECKS[_p] = {"category": "other", "technique": _B, "text": _BT + _extra, "note": _NOTE + "Bounded extents (see evidence coverage.bounded.bounds)."}
+CHECKS["C04"] = {"category": "proof", "technique": "contract-based deductive verification: VCs from the real AST, z3 (nonlinear mixed int/real arithmetic)",
+   "text": "FixedWidthBinning._force_bin_existence_single is verified for an unbounded (symbolic) bin count, width, origin, shift and value: value covered, grid and old "
+           "bins kept, minimal growth, returned shift, caches invalidated -- every path, all inputs (reals). The adaptive arms of fill are additionally checked bounded "
+           "(initial count <= 2, growth <= 4 bins per call) for 'contents stay on their interval' and 'nothing is lost'.",
+   "note": _NOTE + "Mode R: the rounding behaviour of floor/ceil on binary64 (e.g. width 0.1, value 1.7) is NOT decided by this check (see DESIGN.md, finding F6)."}
+CHECKS["C14"]["text"] += " Statistics clauses of Histogram1D.fill / fill_n / + / * / / / copy are attached to those functions (bounded)."
 NOT_APPLICABLE = {}
